@@ -75,6 +75,11 @@ fn q(v: &str) -> String {
     if needs { format!("\"{}\"", body) } else { body }
 }
 
+/// documents whose keys look like the flattened paths the encoder works with
+const JSON_DOCS: [&str; 12] = [
+    "[{\"k]\":\"1\"}]", "{\"a[b\":{\"k]\":\"1\"}}", "{\"a.b\":{\"c\":1}}", "{\"\":1}", "[[[]]]", "{\"a\":{\"a\":{\"a\":[{\"a\":1}]}}}", "{\"x[0]\":1,\"x\":[2]}", "{\"k\":\"v]\"}", "[1,\"]\",{\"[\":[]}]", "{\"a\":null,\"b\":true,\"c\":1.5e300}",
+    "{\"length\":1,\"a.length\":2}", "\"just text\"",
+];
 /// values with a line break (written with the documented \\r / \\n escapes)
 const CRLF_TEXTS: [&str; 3] = ["a/\\r/b", "x\\ny", "\\r\\n"];
 
@@ -133,7 +138,18 @@ fn gen_arg(rng: &mut Rng, info: &CmdInfo, crlf: bool) -> String {
         return q(*rng.pick(&CRLF_TEXTS));
     }
     if !info.flags.is_empty() && rng.chance(1, 4) {
-        return rng.pick(&info.flags).clone();
+        let f = rng.pick(&info.flags).clone();
+        if rng.chance(1, 6) {
+            // a flag / annotation look-alike: padded, in another case, doubled
+            return match rng.below(5) {
+                0 => q(&format!("  {}", f)),
+                1 => q(&format!("{}  ", f)),
+                2 => q(&format!("\u{a0}{}\u{a0}", f)),
+                3 => q(&f.to_uppercase()),
+                _ => q(&format!("{}{}", f, f)),
+            };
+        }
+        return f;
     }
     if rng.chance(3, 10) {
         return q(*rng.pick(&UNTYPED));
@@ -208,6 +224,17 @@ fn gen_lines(rng: &mut Rng, avoid: &[String]) -> Vec<String> {
             l = l.split(' ').map(|t| if is_flag_word(t) { "flagless" } else { t }).collect::<Vec<_>>().join(" ");
         }
         lines.push(l);
+    }
+    // documents with keys that look like the encoder's own path syntax, parsed and encoded back
+    if rng.chance(1, 8) {
+        let doc = *rng.pick(&JSON_DOCS);
+        let coll = rng.chance(1, 2);
+        let at = PRELUDE.len() + rng.usize(lines.len() - PRELUDE.len() + 1);
+        lines.insert(at, format!("jdoc = json_parse {}{}", if coll { "--collection " } else { "" }, q(doc)));
+        lines.insert(at + 1, format!("jtext = json_encode {}${{jdoc}}", if coll && rng.chance(3, 4) { "--collection " } else { "" }));
+        if rng.chance(1, 2) {
+            lines.insert(at + 2, "jdoc2 = json_parse ${jtext}".to_string());
+        }
     }
     // handle graphs: collections that contain their own handle or each other, then recursive release
     if rng.chance(1, 5) {
